@@ -228,9 +228,14 @@ def convolve_with_cases(ctx: Ctx, geom, jnp, n):
             continue
         if 0 in spec.shape:
             continue
-        out = A.convolve_with(F, a["stride"], a["padding"], a["lhs_dilation"], a["rhs_dilation"])
-        impl = np.rint(np.asarray(out.data)).astype(np.int64)
         ctx.case(("convolve_with", it, desc), True, sample=desc if it < 1 else None)
+        try:
+            out = A.convolve_with(F, a["stride"], a["padding"], a["lhs_dilation"], a["rhs_dilation"])
+        except Exception as e:
+            ctx.violation("oracle", "GeometricImage.convolve_with raised on a configuration the definition covers",
+                          dict(desc, image=jarr(c["img"]), filter=jarr(c["flt"]), raised=repr(e)[:300]))
+            continue
+        impl = np.rint(np.asarray(out.data)).astype(np.int64)
         bad = []
         if impl.shape != spec.shape[2:] or not np.array_equal(impl, spec[0, 0]):
             bad.append("values")
